@@ -11,7 +11,7 @@ import os
 import re
 import shutil
 
-WAVES = [("/tmp/seed", "seed", ""), ("/tmp/seed2", "seed2", "-2"), ("/tmp/seed3", "seed3", "-3")]
+WAVES = [("/tmp/seed", "seed", ""), ("/tmp/seed2", "seed2", "-2"), ("/tmp/seed3", "seed3", "-3"), ("/tmp/seed4", "seed4", "-4")]
 # changes that are caught by the check of another property (the other check's id)
 CAUGHT_BY = {}
 OUT = "/verif/seeded"
@@ -63,6 +63,27 @@ NOTES = {
     ("seed3", "C36"): "caught after runs with 400 ticks without a report were added",
     ("seed3", "C40"): "caught after scenarios in which a UOD command is handed over inside the window were added",
     ("seed3", "C41"): "caught after recursion closed from inside an Alarm/Watch/Block in a macro body was added",
+    ("seed4", "C01"): "caught after edits that fill in a passed blank/comment line were added",
+    ("seed4", "C03"): "caught after the independent volume reference for thresholds in (nested) blocks was added",
+    ("seed4", "C04"): "caught after the oracle 'every completed Alarm run executes its whole body' and Alarm bodies with a Block were added (the same change is wave-1 C02)",
+    ("seed4", "C11"): "caught after the oracle 'of same-tick requests of one group the last one wins' was added (the same change is caught by C08)",
+    ("seed4", "C12"): "caught after the cancel of a timed Hold/Pause while the user's Pause/Hold is in effect was added",
+    ("seed4", "C13"): "caught after the oracle 'a line reported failed implies the error pause' was added",
+    ("seed4", "C14"): "caught after the same snippet text injected twice was added",
+    ("seed4", "C16"): "caught after block-lock contention programs were added to the C16/C36 corpus",
+    ("seed4", "C18"): "caught in the thorough tier at once; in the quick tier after two blanks between number and unit were added",
+    ("seed4", "C20"): "caught after durations in other time units (ms) were added",
+    ("seed4", "C21"): "caught after values differing beyond the decimal context precision were added on the same-unit path",
+    ("seed4", "C24"): "caught after the exploration starting in Reconnect with the error timeout elapsed was added",
+    ("seed4", "C25"): "caught after None was added as a written value",
+    ("seed4", "C27"): "first crashed the harness (RecursionError while cancelling leftover tasks); the wait cycle among the runner's tasks is now reported as a violation",
+    ("seed4", "C28"): "first reported as harness nondeterminism: the harness's virtual wall clock was not reset per execution; now deterministic and caught",
+    ("seed4", "C29"): "caught after a run_started of the active run delivered again mid-stream was added",
+    ("seed4", "C32"): "caught after live units whose RecentEngine row has no required roles were added to the world",
+    ("seed4", "C36"): "caught after runs in which the Connection Status tag switches were added",
+    ("seed4", "C38"): "caught after the second BFS with names the id function escapes was added",
+    ("seed4", "C40"): "caught after the oracle 'legal requests must not put the engine into its error state, also in serial orders' was added",
+    ("seed4", "C41"): "caught after the three-macro family (cycle closed by a later call of a body) was added",
 }
 
 
@@ -101,7 +122,7 @@ def main():
             shutil.copy(f"{src}/{pid}.patch.diff", os.path.join(d, "patch.diff"))
             shutil.copy(f"{src}/{pid}.demo_test.py", os.path.join(d, "demo_test.py"))
             out_meta = {
-                "property": pid, "wave": {"seed": 1, "seed2": 2, "seed3": 3}[wave], "caught_by_check": other or pid,
+                "property": pid, "wave": {"seed": 1, "seed2": 2, "seed3": 3, "seed4": 4}[wave], "caught_by_check": other or pid,
                 "check_on_final_head": head_line[:600],
                 "summary": meta.get("summary"), "files": meta.get("files"),
                 "needs_to_manifest": meta.get("needs_to_manifest"),
@@ -131,11 +152,11 @@ def main():
                 "Each directory holds `patch.diff` (apply with `git -C /repo apply`, undo with `git -C /repo checkout -- .`), the sub-agent's\n"
                 "demonstration `demo_test.py` (run as a plain script from the patched tree: passes without, fails with the change) and\n"
                 "`meta.json` (what it needs to manifest, what the sub-agent ran, what I ran to confirm it, which signatures the check reports,\n"
-                "and what had to be strengthened before the check caught it).  `Cxx` = first wave, `Cxx-2` = second wave, `Cxx-3` = third wave.  None of these\n"
+                "and what had to be strengthened before the check caught it).  `Cxx` = first wave, `Cxx-2` = second wave, `Cxx-3` = third wave, `Cxx-4` = fourth wave.  None of these\n"
                 "changes is committed to `/repo`.\n\n"
                 "| seed | check | file(s) | change | signatures reported (first 3) | strengthened first |\n|---|---|---|---|---|---|\n")
         for name, pid, files, summary, sigs in rows:
-            wave = "seed3" if name.endswith("-3") else "seed2" if name.endswith("-2") else "seed"
+            wave = "seed4" if name.endswith("-4") else "seed3" if name.endswith("-3") else "seed2" if name.endswith("-2") else "seed"
             note = NOTES.get((wave, pid), "") or ("" if summary.startswith("NOT") or summary.startswith("not") else "no (caught by the first version)")
             f.write(f"| {name} | {pid} | {files} | {summary.replace('|', '/')} | {sigs.replace('|', '/')} | {note} |\n")
     kept = sum(1 for r in rows if not r[3].startswith(("NOT", "not")))
